@@ -121,7 +121,7 @@ PROPS = {
     "C13": dict(
         cases_mod="CasesText", check_fn="check_C13", shard=200,
         rule='write side: instants in years 1..=9999 x whole-minute offsets (0, +-1 min, +-23:59, random) x 5 precisions; read side: strings from the RFC 3339 ABNF with 1..40 fraction digits, Z or +-hh:mm, one third with a single field pushed out of range (month 00/13, day 00/30/31/32 incl. 29 Feb, hour 24, minute 60, second 60, offset 24:00 / 00:60, year 0000), plus hand-written malformed strings incl. multi-byte characters. Non-trivial: every case.',
-        explanation="see props/C13.v for what is proved; figures describe the differential run.",
+        explanation="Proved for the model (props/C13.v, RfcProofs.v): every grammatical RFC 3339 timestamp (any number of fraction digits) with in-range fields is accepted with exactly the denoted instant and offset; one with an out-of-range field is rejected; no string panics; format_rfc3339 of a valid value (local year 1..9999, whole-minute offset, each precision) is grammatical, in range and denotes the value truncated to the precision; reading back what was written gives that. The run ties the model to the implementation.",
         trusted_base=TB_COMMON + ["serde / serde_json (C20) from the offline cargo cache"], assumptions=ASSUME_COMMON + ["the current year read by the two-letter year parser is a parameter (now_year) passed by the harness"],
     ),
     "C14": dict(
